@@ -4,6 +4,7 @@ package main
 
 import (
 	"fmt"
+	"go/ast"
 	"go/token"
 	"go/types"
 	"os"
@@ -31,6 +32,10 @@ type Program struct {
 	ImportAliases map[string]map[string]string // package path -> import alias -> imported path
 	GhostFields   map[string]map[string]GhostField // "pkgpath.Type" -> field name -> declaration
 	allFns        map[*ssa.Function]bool
+	// StructCanon: position of the first field of a struct literal in a type declaration -> the name of the
+	// declared type.  `type B A` (A a struct type, possibly generic) shares A's struct; heap classes of B's
+	// fields are those of A, so that converting a pointer between the two views keeps its meaning.
+	StructCanon map[token.Pos]string
 }
 
 const repoRoot = "/repo"
@@ -120,6 +125,33 @@ func LoadProgram(moduleDir string, patterns []string, specFiles []string) (*Prog
 		}
 	}
 	P.allFunctions() // computed once here: later readers run concurrently
+	P.StructCanon = map[token.Pos]string{}
+	for _, p := range pkgs {
+		for _, f := range p.Syntax {
+			for _, d := range f.Decls {
+				gd, ok := d.(*ast.GenDecl)
+				if !ok || gd.Tok != token.TYPE {
+					continue
+				}
+				for _, sp := range gd.Specs {
+					ts := sp.(*ast.TypeSpec)
+					stx, ok := ts.Type.(*ast.StructType)
+					if !ok || stx.Fields == nil || len(stx.Fields.List) == 0 {
+						continue
+					}
+					tn, ok := p.TypesInfo.Defs[ts.Name].(*types.TypeName)
+					if !ok {
+						continue
+					}
+					st, ok := tn.Type().Underlying().(*types.Struct)
+					if !ok || st.NumFields() == 0 {
+						continue
+					}
+					P.StructCanon[st.Field(0).Pos()] = p.Types.Name() + "." + tn.Name()
+				}
+			}
+		}
+	}
 	return P, nil
 }
 
